@@ -472,19 +472,22 @@ mod proofs {
     let want = ref_integers(&payload[..len]);
     kani::cover!(r.is_ok() && len == L);
     kani::cover!(r.is_err());
+    // folded into one boolean: Kani 0.68 emits no playback for asserts nested in match arms
+    let mut same = true;
     match (&r, &want) {
       (Ok(v), Some(w)) => {
-        assert!(v.len() == w.n);
+        same = v.len() == w.n;
         let mut i = 0;
-        while i < w.n {
-          assert!(v[i] == w.v[i]);
+        while same && i < w.n {
+          same = v[i] == w.v[i];
           i += 1;
         }
       }
       (Err(_), None) => {}
-      _ => panic!("integer decoding disagrees with the LEB128 reference"),
+      _ => same = false,
     }
     std::mem::forget(r);
+    assert!(same);
   }
 
   #[kani::proof]
